@@ -12,10 +12,12 @@ package lazybind
 
 import (
 	"fmt"
+	"io"
 	"runtime"
 	"sort"
 	"strconv"
 	"strings"
+	"sync/atomic"
 	"time"
 
 	"github.com/uhn/ggql/pkg/ggql"
@@ -312,9 +314,17 @@ type Request struct {
 	Vars gq.ValMap
 }
 
+var runCount int64
+
+type onlyReader struct{ io.Reader }
+
 // Run parses and resolves the request on root (Root.ResolveString, the same
 // entry point a server uses) with its own copy of the variables.
 func (r *Request) Run(root *ggql.Root) map[string]interface{} {
+	// every other call hands the request over as a plain io.Reader (what an HTTP body is): no ReadByte, no Len
+	if atomic.AddInt64(&runCount, 1)%2 == 0 {
+		return root.ResolveReader(onlyReader{strings.NewReader(r.Text)}, r.Op, gq.VarsToGo(r.Vars))
+	}
 	return root.ResolveString(r.Text, r.Op, gq.VarsToGo(r.Vars))
 }
 
